@@ -314,6 +314,7 @@ HINT_TEXTS = [
     "{key} 'einfach' \"doppelt\" \\ back",
     "{key} zwei\nZeilen\tTab",
     "{key} äöüß € ∧∨⊻ [1] U [2]",
+    "",  # a hint that exists but has no text (Dict[str, Optional[str]]: only None means "no such hint")
 ]
 
 
